@@ -253,7 +253,11 @@ def run_harness(sub, outdir, seed, n, tier, replay=None, extra=None, timeout=300
         cmd += ["-replay", replay]
     if extra:
         cmd += extra
-    rc, log = sh(cmd, cwd=outdir, env=goenv(), timeout=timeout)
+    try:
+        rc, log = sh(cmd, cwd=outdir, env=goenv(), timeout=timeout)
+    except subprocess.TimeoutExpired as e:
+        # a harness that does not finish is reported (the property is no longer shown to hold), never waited for forever
+        return 124, "harness %s did not finish within %d s\n%s" % (sub, timeout, (e.stdout or "")[-3000:] if isinstance(e.stdout, str) else "")
     return rc, log
 
 
